@@ -323,7 +323,75 @@ def branch_free_krige_sums(ctx, rule="R15.11"):
         ctx.check(not bad, rule, "krige/krigesum.pyx::" + name, "the summation loops contain no guard, continue or break (every term of the sums is added)%s" % ("" if not bad else ": " + "; ".join(bad[:2])), "branch-free")
 
 
+def double_precision(ctx, rule="R15.12"):
+    """Every floating-point quantity of the kernels is a C double: declared scalars, memoryviews, parameters and return types.  A `float`
+    accumulator still compiles (the += silently narrows) but rounds every partial sum / phase to single precision: results are then
+    neither those of the defining sums in double precision nor, for the phases, exactly periodic."""
+    import re
+
+    n = 0
+    for rel in KERNEL_FILES:
+        mod = ctx.prog.mod(rel)
+        for name, info in sorted(mod.pyx.functions.items()):
+            site = "%s::%s" % (rel, name)
+            decls = [("local " + k, v) for k, v in sorted(info.get("locals", {}).items())] + [("parameter " + p_["name"], p_.get("type")) for p_ in info.get("params", [])]
+            if info.get("ret"):
+                decls.append(("return type", info["ret"]))
+            for what, ty in decls:
+                if not ty:
+                    continue
+                base = re.sub(r"\bconst\b", "", ty).split("[")[0].strip()
+                if base in ("double", "float", "long double", "np.float32_t", "np.float64_t", "float32_t", "float64_t", "DTYPE_t"):
+                    n += 1
+                    ctx.check(base in ("double", "np.float64_t", "float64_t"), rule, site, "%s is declared `%s` (all floating-point kernel data are double)" % (what, ty), "ctype:%s" % what.split()[-1])
+    ctx.floor(rule, "floating-point declarations in the kernels", n, 60)
+
+
+MODE_TERMS = {
+    # kernel -> (accumulation target, the monomials one mode adds to one point)
+    "summate": ("summed_modes[i]", [(1, ("cos(phase)", "z_1[j]"), ()), (1, ("sin(phase)", "z_2[j]"), ())]),
+    "summate_fourier": ("summed_modes[i]", [(1, ("cos(phase)", "spectrum_factor[j]", "z_1[j]"), ()), (1, ("sin(phase)", "spectrum_factor[j]", "z_2[j]"), ())]),
+    "summate_incompr": ("summed_modes[d, i]", [(1, ("cos(phase)", "proj[d]", "z_1[j]"), ()), (1, ("proj[d]", "sin(phase)", "z_2[j]"), ())]),
+}
+
+
+def mode_terms(ctx, rule="R15.13"):
+    """What one mode adds to one point, as an expanded polynomial: weight * z_1 * cos(phase) + weight * z_2 * sin(phase), the weight
+    (spectrum factor / projector component) on BOTH the cosine and the sine part."""
+    from ..small import _sym_subst, monomials, sym_eval
+
+    rel = "field/summator.pyx"
+    mod = ctx.prog.mod(rel)
+    n = 0
+    for name, (target, want) in sorted(MODE_TERMS.items()):
+        fn = mod.functions.get(name)
+        if fn is None:
+            raise AnalysisError("anchor vanished: kernel %s" % name)
+        site = "%s::%s" % (rel, name)
+        acc = [a for a in ast.walk(fn) if isinstance(a, (ast.AugAssign, ast.Assign)) and ast.unparse(a.target if isinstance(a, ast.AugAssign) else a.targets[0]) == target
+               and not (isinstance(a, ast.Assign) and isinstance(a.value, ast.Constant))]
+        if len(acc) != 1:
+            raise AnalysisError("anchor vanished: single accumulation into %s in %s" % (target, site))
+        a = acc[0]
+        # locals holding part of the term (an amplitude computed once per mode, ...) are followed to their definitions
+        val = _sym_subst(a.value, sym_eval(fn.body, stop=a, opaque=("phase",)))
+        if isinstance(a, ast.Assign):
+            # x = x + e (the loader turns this into += for the kernels; kept for safety)
+            ms = monomials(val)
+            ms = [m_ for m_ in ms if m_ != (1, (target,), ())]
+        else:
+            if not isinstance(a.op, ast.Add):
+                ctx.violation(rule, site, "mode contributions are combined with `%s=`" % type(a.op).__name__, "op")
+                continue
+            ms = monomials(val)
+        n += 1
+        ctx.check(ms == sorted(want), rule, site, "one mode adds %s" % " ".join("%s%s" % ("+" if s_ > 0 else "-", "*".join(nm)) + ("/" + "/".join(dn) if dn else "") for s_, nm, dn in ms), "mode-term")
+    ctx.floor(rule, "mode-summation kernels", n, 3)
+
+
 def run(ctx):
+    mode_terms(ctx)
+    double_precision(ctx)
     accumulator_reset(ctx)
     full_extent(ctx)
     zero_init(ctx)
